@@ -95,20 +95,36 @@ Notation eval_eager := (eval_eager sem dsem).
 Lemma apply_op_index (o : op) (X X' : array) it :
   apply_op o X = Some X' -> index_arr X' it = bind (index_arr X it) (apply_op o).
 Proof.
-  destruct X as [dt rws]. destruct o as [c|sel]; cbn [Model.apply_op].
-  - unfold np_map; cbn [a_dt a_rows]. destruct (dsem c dt) as [d|] eqn:Ed; [|discriminate].
+  destruct X as [dt nc rws]. destruct o as [c|sel]; cbn [Model.apply_op].
+  - unfold np_map; cbn [a_dt a_nc a_rows]. destruct (dsem c dt) as [d|] eqn:Ed; [|discriminate].
     destruct (mapM (mapM (sem c dt)) rws) as [rws'|] eqn:Em; [|discriminate].
     cbn [option_map]. intros H; injection H as <-.
-    unfold index_arr; cbn [a_dt a_rows]. rewrite (np_index_mapM _ _ _ it Em).
+    unfold index_arr; cbn [a_dt a_nc a_rows]. rewrite (np_index_mapM _ _ _ it Em).
     rewrite bind_option_map.
     destruct (np_index rws it) as [R|]; cbn [bind option_map]; [|reflexivity].
-    cbn [Model.apply_op]. unfold np_map; cbn [a_dt a_rows]. rewrite Ed. reflexivity.
-  - unfold np_cols; cbn [a_dt a_rows]. unfold select_cols.
-    destruct (mapM (sel_row sel) rws) as [rws'|] eqn:Em; [|discriminate].
+    cbn [Model.apply_op]. unfold np_map; cbn [a_dt a_nc a_rows]. rewrite Ed. reflexivity.
+  - unfold np_cols; cbn [a_dt a_nc a_rows].
+    destruct (col_indices nc sel) as [idx|] eqn:Ei; [|discriminate]. cbn [bind].
+    destruct (mapM (fun row => gather row idx) rws) as [rws'|] eqn:Em; [|discriminate].
     cbn [option_map]. intros H; injection H as <-.
-    unfold index_arr; cbn [a_dt a_rows]. rewrite (np_index_mapM _ _ _ it Em).
+    unfold index_arr; cbn [a_dt a_nc a_rows]. rewrite (np_index_mapM _ _ _ it Em).
     rewrite bind_option_map.
-    destruct (np_index rws it) as [R|]; cbn [bind option_map]; reflexivity.
+    destruct (np_index rws it) as [R|]; cbn [bind option_map]; [|reflexivity].
+    cbn [Model.apply_op]. unfold np_cols; cbn [a_dt a_nc a_rows]. rewrite Ei. reflexivity.
+Qed.
+
+(* arr[:, sel] of an array whose rows all have shape[1] entries is C01's select_cols of the rows *)
+Lemma np_cols_select_cols (sel : colsel) (X : array) :
+  Forall (fun r => zlen r = a_nc X) (a_rows X) ->
+  np_cols sel X =
+  bind (col_indices (a_nc X) sel) (fun idx => option_map (mkarr (a_dt X) (zlen idx)) (select_cols sel (a_rows X))).
+Proof.
+  destruct X as [dt nc rws]; cbn [a_dt a_nc a_rows]. intros Hwf. unfold np_cols; cbn [a_dt a_nc a_rows].
+  destruct (col_indices nc sel) as [idx|] eqn:Ei; [|reflexivity].
+  cbn [bind]. f_equal. unfold select_cols.
+  induction rws as [|r rs IH]; [reflexivity|].
+  inversion Hwf as [|? ? Hr Hrs]; subst. rewrite !mapM_cons, (IH Hrs).
+  unfold sel_row. rewrite Ei. reflexivity.
 Qed.
 
 Lemma apply_ops_index (ops : list op) : forall (X E : array) it,
@@ -141,17 +157,18 @@ Qed.
 
 Variable rows : item -> option (list (list A)).
 Variable d0 : D.
-Notation read_rows := (read_rows sem dsem rows d0).
-Notation reader_getitem := (reader_getitem sem dsem rows d0).
+Variable c0 : Z.
+Notation read_rows := (read_rows sem dsem rows d0 c0).
+Notation reader_getitem := (reader_getitem sem dsem rows d0 c0).
 
 (* reading rows through any op list whose eager value on the whole recording M exists *)
 Lemma read_rows_commute (M : list (list A)) (ops : list op) (E : array) it :
   rows it = np_index M it ->
-  apply_ops ops (mkarr d0 M) = Some E ->
+  apply_ops ops (mkarr d0 c0 M) = Some E ->
   read_rows ops it = index_arr E it.
 Proof.
   intros Hr He. rewrite (apply_ops_index ops _ E it He).
-  unfold Model.read_rows, index_arr; cbn [a_dt a_rows]. rewrite Hr, bind_option_map. reflexivity.
+  unfold Model.read_rows, index_arr; cbn [a_dt a_nc a_rows]. rewrite Hr, bind_option_map. reflexivity.
 Qed.
 
 Lemma read_rows_snoc ops o it : read_rows (ops ++ [o]) it = bind (read_rows ops it) (apply_op o).
@@ -163,7 +180,7 @@ Qed.
 (* __getitem__ of a reader with op list [ops], in terms of the eager value E of the op list *)
 Lemma getitem_ops_commute (M : list (list A)) (ops : list op) (E : array) it cols :
   rows it = np_index M it ->
-  apply_ops ops (mkarr d0 M) = Some E ->
+  apply_ops ops (mkarr d0 c0 M) = Some E ->
   reader_getitem ops it cols =
     match cols with
     | Some cs => if is_whole it then Some (GReader (ops ++ [OCols cs]))
@@ -179,7 +196,7 @@ Qed.
 
 Lemma getitem_commute (M : list (list A)) (e : expr) (E : array) it cols :
   rows it = np_index M it ->
-  eval_eager e (mkarr d0 M) = Some E ->
+  eval_eager e (mkarr d0 c0 M) = Some E ->
   reader_getitem (compile e) it cols =
     match cols with
     | Some cs => if is_whole it then Some (GReader (compile (ECols e cs)))
@@ -193,8 +210,8 @@ Qed.
 (* ---------------------------------------------------------------------------------------- *)
 (* functional store: independence, and what the readers denote                                *)
 (* ---------------------------------------------------------------------------------------- *)
-Notation fstep := (fstep sem dsem rows d0).
-Notation frun := (frun sem dsem rows d0).
+Notation fstep := (fstep sem dsem rows d0 c0).
+Notation frun := (frun sem dsem rows d0 c0).
 
 Lemma fstep_keeps st c st' o k ops :
   fstep st c = Some (st', o) -> nth_error st k = Some ops -> nth_error st' k = Some ops.
@@ -288,7 +305,7 @@ Lemma Forall2_snoc {X Y} (R : X -> Y -> Prop) l l' x y :
 Proof. intros H Hxy. apply Forall2_app; [exact H|constructor; [exact Hxy|constructor]]. Qed.
 
 Variable M : list (list A).
-Notation sout := (sout sem dsem (mkarr d0 M)).
+Notation sout := (sout sem dsem (mkarr d0 c0 M)).
 
 (* one step: the stores stay related, and the answer is the reference answer whenever the reference
    exists (i.e. whenever NumPy evaluates the reader's expression on the whole recording) *)
@@ -311,7 +328,7 @@ Proof.
     destruct (nth_error est r) as [e|]; [|discriminate].
     injection Hf as <- <-. injection Hs as <-. split; [exact HD|]. subst ops.
     intros o' Ho. unfold returns_reader in Ho.
-    destruct (eval_eager e (mkarr d0 M)) as [E|] eqn:Ee.
+    destruct (eval_eager e (mkarr d0 c0 M)) as [E|] eqn:Ee.
     + rewrite (getitem_commute M e E it cols (Hrows r it cols eq_refl) Ee).
       destruct cols as [cs|].
       * destruct (is_whole it); [injection Ho as <-; reflexivity|].
@@ -327,7 +344,7 @@ Qed.
 Lemma frun_sruns cmds : forall st est st' os ros,
   Den st est ->
   (forall r it cols, In (CRead r it cols) cmds -> rows it = np_index M it) ->
-  frun cmds st = Some (st', os) -> sruns sem dsem (mkarr d0 M) cmds est = Some ros ->
+  frun cmds st = Some (st', os) -> sruns sem dsem (mkarr d0 c0 M) cmds est = Some ros ->
   Forall2 (@agrees A D) os ros.
 Proof.
   induction cmds as [|c r IH]; intros st est st' os ros HD Hrows Hf Hs; cbn [Model.frun sruns] in *.
@@ -335,7 +352,7 @@ Proof.
   - destruct (fstep st c) as [[st1 o]|] eqn:E1; [|discriminate].
     destruct (frun r st1) as [[st2 os2]|] eqn:E2; [|discriminate]. injection Hf as <- <-.
     destruct (sstep est c) as [est1|] eqn:S1; [|discriminate].
-    destruct (sruns sem dsem (mkarr d0 M) r est1) as [ros1|] eqn:S2; [|discriminate].
+    destruct (sruns sem dsem (mkarr d0 c0 M) r est1) as [ros1|] eqn:S2; [|discriminate].
     cbn [option_map] in Hs. injection Hs as <-.
     destruct (fstep_sstep st est c st1 o est1 HD) as [HD1 Ho]; try assumption.
     { intros r0 it cols ->. apply (Hrows r0 it cols). left. reflexivity. }
@@ -376,10 +393,11 @@ Variable sem : code -> D -> A -> option A.
 Variable dsem : code -> D -> option D.
 Variable rows : item -> option (list (list A)).
 Variable d0 : D.
-Notation fstep := (fstep sem dsem rows d0).
-Notation frun := (frun sem dsem rows d0).
-Notation hstep := (hstep sem dsem rows d0 h_append_op).
-Notation hrun := (hrun sem dsem rows d0 h_append_op).
+Variable c0 : Z.
+Notation fstep := (fstep sem dsem rows d0 c0).
+Notation frun := (frun sem dsem rows d0 c0).
+Notation hstep := (hstep sem dsem rows d0 c0 h_append_op).
+Notation hrun := (hrun sem dsem rows d0 c0 h_append_op).
 
 (* reader k's _ops attribute points to a list object holding exactly the functional store's entry *)
 Definition Abs (h : heap) (st : list (list op)) : Prop :=
@@ -452,7 +470,7 @@ Proof.
   destruct (fstep st (CRead k it cols)) as [[st1 o1]|] eqn:E1; [|contradiction]. destruct H1 as [<- _].
   assert (st1 = st) as ->.
   { cbn [Model.fstep] in E1. destruct (nth_error st k); [|discriminate]. injection E1 as <- _. reflexivity. }
-  pose proof (frun_independent sem dsem rows d0 cmds st st' os k it cols o Ef E1) as E2.
+  pose proof (frun_independent sem dsem rows d0 c0 cmds st st' os k it cols o Ef E1) as E2.
   pose proof (hstep_refines h' st' (CRead k it cols) HA') as H2. rewrite E2 in H2.
   destruct (hstep h' (CRead k it cols)) as [[h2 o2]|]; [|contradiction]. destruct H2 as [-> _].
   exists h2. reflexivity.
@@ -500,14 +518,14 @@ End Heap.
 (* every read of a history run on the heap model returns the expression its reader denotes, applied to
    the whole recording and then indexed *)
 Lemma hrun_tree_commute {A D} (sem : code -> D -> A -> option A) (dsem : code -> D -> option D)
-      (rows : item -> option (list (list A))) (d0 : D) (M : list (list A)) cmds h os ros :
+      (rows : item -> option (list (list A))) (d0 : D) (c0 : Z) (M : list (list A)) cmds h os ros :
   (forall r it cols, In (CRead r it cols) cmds -> rows it = np_index M it) ->
-  hrun sem dsem rows d0 h_append_op cmds heap0 = Some (h, os) ->
-  sruns sem dsem (mkarr d0 M) cmds [EBase] = Some ros ->
+  hrun sem dsem rows d0 c0 h_append_op cmds heap0 = Some (h, os) ->
+  sruns sem dsem (mkarr d0 c0 M) cmds [EBase] = Some ros ->
   Forall2 (@agrees A D) os ros.
 Proof.
   intros Hrows Hh Hs.
-  destruct (proj1 (hrun_from0 sem dsem rows d0 cmds) h os Hh) as (st & Hf & _).
-  eapply (frun_sruns sem dsem rows d0 M cmds store0 [EBase]); try eassumption.
+  destruct (proj1 (hrun_from0 sem dsem rows d0 c0 cmds) h os Hh) as (st & Hf & _).
+  eapply (frun_sruns sem dsem rows d0 c0 M cmds store0 [EBase]); try eassumption.
   constructor; [reflexivity|constructor].
 Qed.
